@@ -354,3 +354,87 @@ func TestC02_Enum(t *testing.T) {
 	}
 	stats.R.SetExhaustive(fmt.Sprintf("fragment topologies: query + %d fragments, bodies = one of %d selections x any subset of spreads", k, na), part == 1)
 }
+
+// ---------------------------------------------------------------------------------------------
+// bounded exhaustive enumeration of comparisons under mutually exclusive / identical parents:
+// { pet { ... on A { owner { X } } ... on B { owner { Y } } ... on C { owner { Z } } } } with
+// A,B,C over {Dog, Cat} and X,Y,Z over plain fields, aliased fields and two fragments. The same
+// pair (fields, fragment) is reached first under exclusive and later under non-exclusive
+// parents (and vice versa), which is what the rule's memo tables have to keep apart.
+
+func exclusiveEnumSchema() *model.Schema {
+	t := model.T
+	human := []*model.FieldDef{{Name: "name", Type: t("String")}, {Name: "nick", Type: t("String")}, {Name: "age", Type: t("Int")}}
+	pet := func() []*model.FieldDef {
+		return []*model.FieldDef{{Name: "owner", Type: t("Human")}, {Name: "name", Type: t("String")}}
+	}
+	return &model.Schema{Query: "Q", Types: []*model.TypeDef{
+		{Kind: model.KObject, Name: "Human", Fields: human},
+		{Kind: model.KIface, Name: "Pet", HasResolveType: true, Fields: pet()},
+		{Kind: model.KObject, Name: "Dog", Interfaces: []string{"Pet"}, Fields: pet()},
+		{Kind: model.KObject, Name: "Cat", Interfaces: []string{"Pet"}, Fields: pet()},
+		{Kind: model.KObject, Name: "Q", Fields: []*model.FieldDef{{Name: "pet", Type: t("Pet")}}},
+	}}
+}
+
+func TestC02_EnumExclusive(t *testing.T) {
+	if replayFile() != "" {
+		t.Skip()
+	}
+	s := exclusiveEnumSchema()
+	b, err := build.New(s, &ref.World{S: s}, build.Options{})
+	if err != nil {
+		t.Fatalf("HARNESS: %v", err)
+	}
+	f := func(alias, name string) *model.Sel { return &model.Sel{K: "field", Alias: alias, Name: name} }
+	bodies := func() [][]*model.Sel {
+		return [][]*model.Sel{
+			{f("", "name")}, {f("name", "nick")}, {f("name", "age")}, {f("", "nick")},
+			{{K: "spread", Name: "X"}}, {{K: "spread", Name: "Y"}},
+		}
+	}
+	types := []string{"Dog", "Cat"}
+	frags := func() []*model.Def {
+		return []*model.Def{
+			{Kind: "fragment", Name: "X", TypeCond: "Human", Sel: []*model.Sel{f("name", "nick")}},
+			{Kind: "fragment", Name: "Y", TypeCond: "Human", Sel: []*model.Sel{f("", "name"), {K: "spread", Name: "X"}}},
+		}
+	}
+	sh, shards := shard()
+	nb := len(bodies())
+	total := 8 * nb * nb * nb
+	for idx := sh; idx < total; idx += shards {
+		x := idx
+		var branches []*model.Sel
+		usedX, usedY := false, false
+		for k := 0; k < 3; k++ {
+			ty := types[x%2]
+			x /= 2
+			body := bodies()[x%nb]
+			x /= nb
+			if body[0].K == "spread" {
+				usedX = usedX || body[0].Name == "X" || body[0].Name == "Y"
+				usedY = usedY || body[0].Name == "Y"
+			}
+			branches = append(branches, &model.Sel{K: "inline", TypeCond: ty, Sel: []*model.Sel{{K: "field", Name: "owner", Sel: body}}})
+		}
+		d := &model.Doc{Defs: []*model.Def{{Kind: "query", Shorthand: true, Sel: []*model.Sel{{K: "field", Name: "pet", Sel: branches}}}}}
+		fr := frags()
+		if usedX {
+			d.Defs = append(d.Defs, fr[0])
+		}
+		if usedY {
+			d.Defs = append(d.Defs, fr[1])
+		}
+		c := &ValCase{Schema: s, Doc: d}
+		msg, violated := c02Oracle(c, b)
+		for _, r := range violated {
+			stats.R.Class("exclusive_enum_violates_" + r)
+		}
+		stats.R.Case(c.Text, true, func() interface{} { return c.Text })
+		if msg != "" {
+			violation(t, "C02", "exclusive", c, "%s", msg)
+		}
+	}
+	stats.R.SetExhaustive("three inline fragments on {Dog,Cat} x owner sub-selections from 6 bodies (plain, aliased, fragment, fragment chain)", true)
+}
